@@ -361,6 +361,9 @@ def run(ctx):
     quick = ctx.tier == "quick"
     if ctx.replay:
         rp = ctx.replay["replay"]
+        if rp.get("kind") == "locktie":
+            locktie.regenerate(ctx, "C10")
+            return
         vlib.lake_build(["driver"])
         for attempt in range(1 if rp.get("kind") == "lean-build" else 5):
             s = replay_session(ctx, rp, "plain")
